@@ -22,7 +22,7 @@ RULE = ('exhaustive: every rule body built from <= 3 assignments (a=, a+=, b=, a
 REQUIRED = {'grammars': 200, 'attributes_checked': 300, 'accepted_inputs': 500, 'inputs_with_falsy_first': 30,
             'list_attrs_seen': 50, 'single_attrs_seen': 50,
             'grammars_with_several_objects_and_dropped_subobjects': 100, 'reference_valued_inputs': 300,
-            'postponed_reference_answers': 300}
+            'postponed_reference_answers': 300, 'grammars_with_a_rule_named_like_an_internal_marker': 50, 'bool_mixed_grammar_pairs': 20}
 
 VALS = ['INT', 'ID', 'STRING', 'BOOL', 'FLOAT']
 
@@ -246,8 +246,42 @@ def grammar_items(body):
                     Rule('Hdr', Seq([Lit('['), Assign('a', '=', Ref('INT')), Opt(Seq([Lit('/'), Assign('b', '=', Ref('ID'))])), Lit(']')]))])
 
 
+ODD_RULE_NAMES = ['sep', 'eolterm', 'root', 'nodes', 'rule_name', 'Sep', 'suppress', 'OBJECT2', 'x']
+
+
+def rename_rule(g, old, new):
+    """the same grammar with rule `old` called `new` (names that textX uses itself for markers of its parser model)"""
+    def walk(e):
+        if isinstance(e, Ref) and e.name == old:
+            e.name = new
+        for attr in ('items', 'alts'):
+            for x in getattr(e, attr, []) or []:
+                walk(x)
+        for attr in ('e', 'sep', 'rhs'):
+            x = getattr(e, attr, None)
+            if x is not None and not isinstance(x, (str, bool, int)):
+                walk(x)
+    for rl in g.rules:
+        if rl.name == old:
+            rl.name = new
+        walk(rl.body)
+    return g
+
+
 def _run_rand(ctx, i):
     r = ctx.rng('rand', i)
+    if i % 8 in (5, 6):
+        ctx.count('grammars_with_a_rule_named_like_an_internal_marker')
+        body = rand_body(r, Kw(), 0, [r.randint(2, 5)], hdr=(i % 8 == 5))
+        if i % 8 == 5:
+            if not list(RP.assigns_in(body)):
+                body = Seq([body, Lit('='), Assign('a', '=', Ref('INT'))])
+            g = grammar_items(body)
+        else:
+            g = grammar_for(body)
+        g = rename_rule(g, 'Sub', ctx.rng('oddname', i).choice(ODD_RULE_NAMES))
+        check_grammar(ctx, g, {'phase': 'rand', 'i': i}, r, 10, sample=False)
+        return
     if i % 2:
         ctx.count('grammars_with_several_objects_and_dropped_subobjects')
         body = rand_body(r, Kw(), 0, [r.randint(2, 5)], hdr=True)
@@ -352,7 +386,70 @@ def space(tier):
     return out
 
 
+BOOL_MIX = [(o1, o2, comb) for o1 in ('?=', '=', '+=', '*=') for o2 in ('?=', '=', '+=', '*=') if '?=' in (o1, o2) and (o1, o2) != ('?=', '?=')
+            for comb in ('seq', 'opt', 'alt', 'rep')] + [('?=', '?=', c) for c in ('seq', 'opt', 'alt')]
+
+
+def run_boolmix(ctx, k):
+    """The bool assignment ?= beside another assignment of the same attribute. textX refuses such grammars ('Cannot use "?="
+    operator on multiple assignments'): the decision must not depend on which of the two comes first, and a grammar that is
+    accepted must not fail with 'Multiple assignments' on its own sentences."""
+    from textx import metamodel_from_str, TextXError
+    o1, o2, comb = BOOL_MIX[k]
+    rep = {'phase': 'boolmix', 'k': k}
+
+    def asg(op):
+        return "a%s'x'" % op if op == '?=' else 'a%sINT' % op
+
+    def body(first, second):
+        if comb == 'seq':
+            return "'m' %s 'n' %s" % (asg(first), asg(second))
+        if comb == 'opt':
+            return "'m' %s ('n' %s)?" % (asg(first), asg(second))
+        if comb == 'alt':
+            return "'m' ('p' %s | 'q' %s 'n' %s)" % (asg(first), asg(first), asg(second))
+        return "'m' %s ('n' %s)+" % (asg(first), asg(second))
+    out = {}
+    for order, (f_, s_) in (('as written', (o1, o2)), ('swapped', (o2, o1))):
+        g = 'Model: %s;' % body(f_, s_)
+        try:
+            mm = metamodel_from_str(g)
+            out[order] = ('accepted', g, mm)
+        except TextXError as e:
+            out[order] = ('rejected', g, str(e)[:100])
+    ctx.count('bool_mixed_grammar_pairs')
+    ctx.case(('boolmix', o1, o2, comb), True, {'grammars': [out['as written'][1], out['swapped'][1]],
+                                               'decisions': [out['as written'][0], out['swapped'][0]]} if k < 2 else None)
+    if out['as written'][0] != out['swapped'][0]:
+        ctx.violation(None, 'a bool assignment beside another assignment of the same attribute: %r is %s but %r is %s' % (
+            out['as written'][1], out['as written'][0], out['swapped'][1], out['swapped'][0]),
+            {'grammars': [out['as written'][1], out['swapped'][1]]}, rep)
+        return
+    for order in out:
+        if out[order][0] != 'accepted':
+            continue
+        g, mm = out[order][1], out[order][2]
+        f_, s_ = (o1, o2) if order == 'as written' else (o2, o1)
+
+        def val(op):
+            return 'x' if op == '?=' else '5'
+        sent = {'seq': 'm %s n %s', 'opt': 'm %s n %s', 'alt': 'm q %s n %s', 'rep': 'm %s n %s n %s'}[comb]
+        vals = (val(f_), val(s_)) + ((val(s_),) if comb == 'rep' else ())
+        s_in = sent % vals
+        got = P.textx_outcome(mm, s_in)
+        ctx.count('bool_mixed_inputs')
+        if got[0] == 'semerr' and got[1] == 'Multiple assignments':
+            ctx.violation(None, 'the grammar %r is accepted, its sentence %r fails with "Multiple assignments"' % (g, s_in),
+                          {'grammar': g, 'input': s_in}, rep)
+            return
+        if got[0] not in ('ok', 'reject'):
+            ctx.violation(None, 'the grammar %r is accepted, loading %r gives %r' % (g, s_in, got[:2]), {'grammar': g, 'input': s_in}, rep)
+            return
+
+
 def run(ctx):
+    for k in ctx.indices(len(BOOL_MIX), 'bool_mixing', exhaustive=True):
+        run_boolmix(ctx, k)
     sp = space(ctx.tier)
     ctx.note('exhaustive_space', {'shapes': len(sp)})
     total = ctx.deadline - ctx.t0
@@ -371,7 +468,9 @@ def one(ctx, i):
 
 
 def replay(ctx, rep):
-    if rep['phase'] == 'exh':
+    if rep['phase'] == 'boolmix':
+        run_boolmix(ctx, rep['k'])
+    elif rep['phase'] == 'exh':
         run_exh(ctx, space(rep['tier']), rep['i'])
     elif rep['phase'] == 'refs':
         run_refs(ctx, rep['i'])
